@@ -27,7 +27,7 @@ from gbasis.integrals.point_charge import point_charge_integral  # noqa: E402
 class Q:
     def __init__(self, name, fn, axes=None, density=False, tol=1e-9, eri=False, needs=(), order=0):
         self.order = order  # density-type: highest total derivative order entering the field (None: ESP)
-        self.name = name
+        self.name = self.__name__ = name
         self.fn = fn  # (basis, env, transform) -> ndarray ; density-type: (basis, gamma, env, transform)
         self.axes = axes
         self.density = density
